@@ -4,6 +4,6 @@ INVARIANT PlaceInverse
 INVARIANT LocateExact
 INVARIANT OrigLocateOutsideWindow
 INVARIANT OrigLocateInsideWindow
-INVARIANT DecodeStrictExact
-INVARIANT DecodeTreeExact
+INVARIANT DecodeExact
+INVARIANT OrigDecodeExactIffNotMultiple
 CHECK_DEADLOCK FALSE
